@@ -154,7 +154,7 @@ func (p *Plan) FaultFree() bool {
 	}
 	for _, a := range p.Timeline {
 		switch a.Kind {
-		case ActStart, ActStop, ActStopCtx, ActProbe, ActCancelCtx:
+		case ActStart, ActStop, ActStopCtx, ActProbe, ActCancelCtx, ActSetHandler:
 		default:
 			return false
 		}
@@ -262,4 +262,17 @@ func (tr *Trace) stopOverlappedByStart(obj, after, before int) *APIRec {
 		}
 	}
 	return nil
+}
+
+// PreemptionPossible: some takeover-enabled instance outranks another instance of its group (with one common
+// priority nobody may preempt anybody, whatever the takeover flags say).
+func (p *Plan) PreemptionPossible() bool {
+	for _, a := range p.Instances {
+		for _, b := range p.Instances {
+			if a.Takeover && a.Group == b.Group && a.Priority > b.Priority {
+				return true
+			}
+		}
+	}
+	return false
 }
